@@ -78,7 +78,7 @@ func TestC04(t *testing.T) {
 		return
 	}
 	g := cfg()
-	vcore.Check(t, vcore.N(1500, 4000), func(rt *rapid.T) {
+	vcore.Check(t, vcore.N(1500, 12000), func(rt *rapid.T) {
 		gc := g
 		// one history in four lets the peers choose equal CP SEIDs, so that a SEID-0 answer
 		// can only be attributed by peer address
